@@ -1,6 +1,6 @@
 (* C06: lemmas about the colour-mode encoder (Model/Encode.v, ShColor) against the
    specification of Model/Ansi.v. *)
-Require Import Verif.Model.Base Verif.Model.Dec Verif.Model.Level Verif.Model.Mode.
+Require Import Verif.Model.Base Verif.Model.Decision Verif.Model.Dec Verif.Model.Level Verif.Model.Mode.
 Require Import Verif.Model.Quote Verif.Model.Attrs Verif.Model.Encode Verif.Model.Ansi.
 Require Import Verif.Proofs.Utf8P Verif.Proofs.EscP Verif.Proofs.RegistryP Verif.Proofs.SortP.
 From Coq Require Import Lia ZifyBool ZifyNat ZifyN.
@@ -859,3 +859,210 @@ Proof.
   rewrite right_pad_eq. cbn [app]. rewrite <- !app_assoc. cbn [app]. reflexivity.
 Qed.
 End Main.
+
+(* ---------- the hypotheses are stable under sorting and de-duplication ---------- *)
+Lemma attrs_ok_iff l : attrs_ok l = true <-> (forall k x, In (A k x) l -> text_ok k = true /\ value_ok x = true).
+Proof.
+  induction l as [|a t IH]; cbn [attrs_ok].
+  - split; [intros _ k x []|reflexivity].
+  - destruct a as [k0 x0|].
+    + rewrite !andb_true_iff, IH. split.
+      * intros [[Hk Hx] Ht] k x [E|Hin]; [injection E as <- <-; split; assumption|exact (Ht k x Hin)].
+      * intros H. split; [exact (H k0 x0 (or_introl eq_refl))|]. intros k x Hin. apply H. right. exact Hin.
+    + rewrite IH. split; intros H k x Hin.
+      * destruct Hin as [E|Hin]; [discriminate|exact (H k x Hin)].
+      * apply H. right. exact Hin.
+Qed.
+
+Lemma norm_group items : norm_value (VGroup items) = VGroup (sort_dedupe (map norm_attr items)).
+Proof.
+  cbn [norm_value]. do 2 f_equal.
+  induction items as [|a t IH]; [reflexivity|].
+  destruct a as [k x|]; cbn [map norm_attr]; cbv beta iota fix; f_equal; exact IH.
+Qed.
+
+Lemma norm_attrs_in k x l : In (A k x) (sort_dedupe (map norm_attr l)) -> exists x0, In (A k x0) l /\ x = norm_value x0.
+Proof.
+  intros H. apply sort_dedupe_incl in H. apply in_map_iff in H. destruct H as [a [E Hin]].
+  destruct a as [k0 x0|]; [|discriminate]. cbn [norm_attr] in E. injection E as <- <-. exists x0. split; [exact Hin|reflexivity].
+Qed.
+
+Lemma value_ok_norm : forall v, value_ok v = true -> value_ok (norm_value v) = true.
+Proof.
+  apply (value_ind2 (fun v => value_ok v = true -> value_ok (norm_value v) = true)).
+  - intros v Hg H. destruct v; try exact H. discriminate.
+  - intros items IH H. rewrite norm_group, value_ok_group. rewrite value_ok_group in H.
+    rewrite attrs_ok_iff in H. apply attrs_ok_iff. intros k x Hin.
+    destruct (norm_attrs_in k x items Hin) as [x0 [Hin0 ->]]. destruct (H k x0 Hin0) as [Hk Hx].
+    split; [exact Hk|]. exact (IH k x0 Hin0 Hx).
+Qed.
+
+Lemma attrs_ok_norm l : attrs_ok l = true -> attrs_ok (norm_attrs l) = true.
+Proof.
+  intros H. rewrite attrs_ok_iff in H. apply attrs_ok_iff. intros k x Hin. unfold norm_attrs in Hin.
+  destruct (norm_attrs_in k x l Hin) as [x0 [Hin0 ->]]. destruct (H k x0 Hin0) as [Hk Hx].
+  split; [exact Hk|exact (value_ok_norm x0 Hx)].
+Qed.
+
+(* ---------- the layout domain ---------- *)
+Lemma layout_byte_noesc b : layout_byte b = true -> is_esc b = false.
+Proof. unfold layout_byte, is_esc. lia. Qed.
+Lemma layout_domain_esc_free msg : layout_domain msg = true -> esc_free msg = true.
+Proof.
+  unfold layout_domain, esc_free. rewrite !forallb_forall. intros H b Hb. rewrite (layout_byte_noesc b (H b Hb)). reflexivity.
+Qed.
+Lemma existsb_repeat_false {A} (f : A -> bool) a n : f a = false -> existsb f (repeat a n) = false.
+Proof. intros H. induction n as [|n IH]; [reflexivity|]. cbn [repeat existsb]. rewrite H, IH. reflexivity. Qed.
+Lemma layout_domain_no_markup msg w : layout_domain msg = true ->
+  has_markup (right_pad (hd [] (split_lf (fst (msg_body msg)))) w) = false.
+Proof.
+  intros H. unfold has_markup, right_pad. rewrite existsb_app.
+  rewrite existsb_repeat_false by reflexivity. rewrite orb_false_r.
+  assert (Hf : forallb layout_byte (hd [] (split_lf (fst (msg_body msg)))) = true).
+  { destruct (split_lf (fst (msg_body msg))) as [|first rl] eqn:E; [reflexivity|]. cbn [hd].
+    apply (split_all layout_byte (fst (msg_body msg))); [apply body_all; exact H|rewrite E; left; reflexivity]. }
+  induction (hd [] (split_lf (fst (msg_body msg)))) as [|b t IH]; [reflexivity|].
+  cbn [forallb] in Hf. apply andb_true_iff in Hf. destruct Hf as [Hb Ht]. cbn [existsb]. rewrite (IH Ht).
+  unfold layout_byte in Hb. lia.
+Qed.
+
+(* ---------- the level tag ---------- *)
+Definition tags_ok (g : registry) : bool :=
+  forallb (fun row : Z * list (Z * bytes) =>
+             forallb (fun lt : Z * bytes => Nat.eqb (length (snd lt)) (Z.to_nat (fst row))) (snd row)) (r_tags g).
+
+Lemma tag_length g w lvl : tags_ok g = true -> 1 <= w <= 5 -> length (tag_of g w lvl) = Z.to_nat w.
+Proof.
+  intros Ht Hw. unfold tag_of.
+  destruct (match lookupZ (r_tags g) w with Some m => lookupZ m lvl | None => None end) as [t|] eqn:E.
+  - unfold short_tag. replace ((w <=? 0) || (6 <=? w)) with false by lia. rewrite E.
+    destruct (lookupZ (r_tags g) w) as [m|] eqn:E1; [|discriminate].
+    apply lookupZ_in in E1. apply lookupZ_in in E. unfold tags_ok in Ht. rewrite forallb_forall in Ht.
+    specialize (Ht _ E1). cbn [snd fst] in Ht. rewrite forallb_forall in Ht. specialize (Ht _ E). cbn [snd] in Ht.
+    apply Nat.eqb_eq. exact Ht.
+  - destruct (short_tag_length g w lvl Hw E) as [t [-> Hl]]. exact Hl.
+Qed.
+
+(* ---------- colour numbers ---------- *)
+Lemma colors_ok_register g v t o : colors_ok g = true -> (o_clr o = -1 \/ 0 <= o_clr o) -> -1 <= o_bg o ->
+  colors_ok (fst (register g v t o)) = true.
+Proof.
+  intros Hg Hc Hb. unfold register. destruct (memZ (r_all g) v); [exact Hg|].
+  destruct (lookupB (r_s2l g) (to_lower t)); [exact Hg|]. cbn [fst]. unfold colors_ok. cbn [r_colors].
+  destruct (o_clr o =? -1) eqn:E; [exact Hg|]. rewrite forallb_app. unfold colors_ok in Hg. rewrite Hg.
+  cbn [forallb snd]. destruct (o_bg o =? -1); cbn [forallb]; lia.
+Qed.
+
+(* ---------- C06_values_clean ---------- *)
+Fixpoint raw_attrs (l : list attr) : list bytes :=
+  match l with
+  | [] => []
+  | ANil :: t => raw_attrs t
+  | A k x :: t => k :: raw_texts x ++ raw_attrs t
+  end.
+Lemma raw_group items : raw_texts (VGroup items) = raw_attrs items.
+Proof.
+  cbn [raw_texts]. induction items as [|a t IH]; [reflexivity|].
+  destruct a as [k x|]; cbn [raw_attrs]; cbv beta iota fix; [do 2 f_equal; exact IH|exact IH].
+Qed.
+
+Lemma clean_dig b : is_dig b = true -> clean b.
+Proof. unfold is_dig, clean. lia. Qed.
+Lemma dec_of_Z_clean z : Forall clean (dec_of_Z z).
+Proof.
+  assert (H : forall n, Forall clean (dec_of_N n)).
+  { intros n. destruct (dec_of_N_digits n) as [Hd _]. unfold all_dig in Hd. eapply Forall_impl; [|exact Hd]. exact clean_dig. }
+  unfold dec_of_Z. destruct (z <? 0); [constructor; [lit|apply H]|apply H].
+Qed.
+Lemma bool_text_clean b : Forall clean (bool_text b).
+Proof. destruct b; cbn [bool_text]; lits; constructor. Qed.
+Lemma join_clean sep l : Forall clean sep -> Forall (Forall clean) l -> Forall clean (join_with sep l).
+Proof.
+  intros Hs H. induction l as [|x t IH]; [constructor|]. inversion H as [|? ? Hx Ht]; subst.
+  destruct t as [|y t']; [exact Hx|].
+  change (join_with sep (x :: y :: t')) with (x ++ sep ++ join_with sep (y :: t')).
+  apply Forall_app. split; [exact Hx|]. apply Forall_app. split; [exact Hs|exact (IH Ht)].
+Qed.
+Lemma bracket_clean l : Forall (Forall clean) l -> Forall clean (bracket l).
+Proof.
+  intros H. unfold bracket. constructor; [lit|]. apply Forall_app. split; [|lits; constructor].
+  apply join_clean; [lits; constructor|exact H].
+Qed.
+Lemma bracket_map_clean {X} (f : X -> bytes) l : (forall a, Forall clean (f a)) -> Forall clean (bracket (map f l)).
+Proof. intros H. apply bracket_clean. apply Forall_forall. intros x Hx. apply in_map_iff in Hx. destruct Hx as [a [<- _]]. apply H. Qed.
+Lemma dot_prefix_clean k pfx : Forall clean k -> Forall clean pfx -> Forall clean (dot_prefix k pfx).
+Proof.
+  intros Hk Hp. unfold dot_prefix. destruct pfx as [|b p]; [exact Hk|].
+  apply Forall_app. split; [exact Hp|]. constructor; [lit|exact Hk].
+Qed.
+Lemma Forall_clean_text_ok_all l : Forall (Forall clean) l -> forallb text_ok l = true.
+Proof. intros H. apply forallb_forall. intros x Hx. rewrite Forall_forall in H. exact (clean_text_ok x (H x Hx)). Qed.
+
+Section Values.
+Variable isprint : Z -> bool.
+Hypothesis isprint_ascii : forall r, 0 <= r < 128 -> isprint r = (32 <=? r) && (r <? 127).
+
+Lemma q_clean s : Forall clean (q isprint s).
+Proof. exact (quote_clean isprint isprint_ascii s). Qed.
+
+Lemma lay_leaf_clean pfx v : is_group v = false -> Forall (Forall clean) (raw_texts v) -> Forall clean (lay_value isprint pfx v).
+Proof.
+  intros Hg H.
+  destruct v as [|s|e|b|z|n|t|t|t|t|s|t|l|l|l|l|l|l|l|items]; cbn [lay_value raw_texts] in *;
+    try apply q_clean; try apply bool_text_clean; try apply dec_of_Z_clean;
+    try (inversion H; assumption);
+    try (apply bracket_map_clean; intros a; first [apply q_clean|apply bool_text_clean|apply dec_of_Z_clean]);
+    try (apply bracket_clean; exact H).
+  - unfold nil_text. lits. constructor.
+  - discriminate.
+Qed.
+
+Lemma lay_members_clean items : (forall k x, In (A k x) items -> forall pfx, Forall clean pfx ->
+      Forall (Forall clean) (raw_texts x) -> Forall clean (lay_value isprint pfx x)) ->
+  forall pfx, Forall clean pfx -> Forall (Forall clean) (raw_attrs items) -> Forall clean (lay_members isprint pfx items).
+Proof.
+  induction items as [|a t IH]; intros HP pfx Hp H; [constructor|].
+  destruct a as [k x|]; cbn [lay_members raw_attrs] in *.
+  - inversion H as [|? ? Hk H']; subst. apply Forall_app in H'. destruct H' as [Hx Ht].
+    assert (Hdk : Forall clean (dot_prefix k pfx)) by (exact (dot_prefix_clean k pfx Hk Hp)).
+    constructor; [lit|]. apply Forall_app. split.
+    { unfold lay_key. destruct (is_group x); [constructor|]. apply Forall_app. split; [exact Hdk|lits; constructor]. }
+    apply Forall_app. split; [exact (HP k x (or_introl eq_refl) _ Hdk Hx)|].
+    apply IH; [|exact Hp|exact Ht]. intros k' x' Hin. apply (HP k' x'). right. exact Hin.
+  - apply IH; [|exact Hp|exact H]. intros k' x' Hin. apply (HP k' x'). right. exact Hin.
+Qed.
+
+Lemma lay_value_clean : forall v pfx, Forall clean pfx -> Forall (Forall clean) (raw_texts v) ->
+  Forall clean (lay_value isprint pfx v).
+Proof.
+  apply (value_ind2 (fun v => forall pfx, Forall clean pfx -> Forall (Forall clean) (raw_texts v) ->
+                                Forall clean (lay_value isprint pfx v))).
+  - intros v Hg pfx _ H. exact (lay_leaf_clean pfx v Hg H).
+  - intros items HP pfx Hp H. rewrite lay_group. rewrite raw_group in H. exact (lay_members_clean items HP pfx Hp H).
+Qed.
+
+Lemma raw_clean_attrs_ok items : (forall k x, In (A k x) items -> Forall (Forall clean) (raw_texts x) -> value_ok x = true) ->
+  Forall (Forall clean) (raw_attrs items) -> attrs_ok items = true.
+Proof.
+  induction items as [|a t IH]; intros HP H; [reflexivity|].
+  destruct a as [k x|]; cbn [attrs_ok raw_attrs] in *.
+  - inversion H as [|? ? Hk H']; subst. apply Forall_app in H'. destruct H' as [Hx Ht].
+    rewrite (clean_text_ok k Hk), (HP k x (or_introl eq_refl) Hx). cbn [andb].
+    apply IH; [|exact Ht]. intros k' x' Hin. apply (HP k' x'). right. exact Hin.
+  - apply IH; [|exact H]. intros k' x' Hin. apply (HP k' x'). right. exact Hin.
+Qed.
+Lemma raw_clean_value_ok : forall v, Forall (Forall clean) (raw_texts v) -> value_ok v = true.
+Proof.
+  apply (value_ind2 (fun v => Forall (Forall clean) (raw_texts v) -> value_ok v = true)).
+  - intros v Hg H. destruct v; cbn [value_ok raw_texts] in *; try reflexivity;
+      try (inversion H; apply clean_text_ok; assumption); try (apply Forall_clean_text_ok_all; exact H). discriminate.
+  - intros items HP H. rewrite value_ok_group. rewrite raw_group in H. exact (raw_clean_attrs_ok items HP H).
+Qed.
+
+Lemma values_clean clr bg v pfx : -1 <= clr -> -1 <= bg -> Forall clean pfx -> Forall (Forall clean) (raw_texts v) ->
+  blk (ser_value isprint ShColor clr bg pfx v) (lay_value isprint pfx v) /\ Forall clean (lay_value isprint pfx v).
+Proof.
+  intros Hc Hb Hp H. split; [|exact (lay_value_clean v pfx Hp H)].
+  apply (value_blk isprint isprint_ascii clr bg Hc Hb); [exact (raw_clean_value_ok v H)|exact (clean_text_ok pfx Hp)].
+Qed.
+End Values.
